@@ -723,6 +723,81 @@ func (v *validator) relation(in *Inst) {
 	default:
 		m.unchk[in.Name()]++
 	}
+	v.imageOperands(in)
+}
+
+var rImageOperands = rule("image.operands", "image operand ids have the class their bit demands: Bias float scalar; Lod float scalar (sampling) or integer scalar (fetch / query); Grad floats; ConstOffset / Offset integers; Sample integer scalar")
+
+// imageOperands checks the types of the ids following an ImageOperands mask.
+func (v *validator) imageOperands(in *Inst) {
+	pos := -1
+	for k, o := range in.Operands {
+		if o.Kind == KindEnum && o.Enum == "ImageOperands" {
+			pos = k
+			break
+		}
+	}
+	if pos < 0 {
+		return
+	}
+	mask := in.Operands[pos].Word
+	ids := in.Operands[pos+1:]
+	next := func() (tinfo, uint32, bool) {
+		if len(ids) == 0 || ids[0].Kind != KindID {
+			return tinfo{}, 0, false
+		}
+		id := ids[0].Word
+		ids = ids[1:]
+		t, ok := v.operandType(in, id)
+		if !ok {
+			return tinfo{}, 0, false
+		}
+		return v.ti(t), t, true
+	}
+	fetch := in.Op == OpImageFetch || in.Op == OpImageRead || in.Op == OpImageWrite
+	say := func(what string, t uint32) {
+		v.add(rImageOperands, in.Index, "%s: image operand %s has type %s", in.Name(), what, v.m.TypeString(t))
+	}
+	if mask&0x1 != 0 { // Bias
+		if x, t, ok := next(); ok && (!x.isFloat() || x.n != 1) {
+			say("Bias", t)
+		}
+	}
+	if mask&0x2 != 0 { // Lod
+		if x, t, ok := next(); ok {
+			if fetch && (!x.isInt() || x.n != 1) {
+				say("Lod", t)
+			}
+			if !fetch && (!x.isFloat() || x.n != 1) {
+				say("Lod", t)
+			}
+		}
+	}
+	if mask&0x4 != 0 { // Grad dx dy
+		for _, w := range []string{"Grad dx", "Grad dy"} {
+			if x, t, ok := next(); ok && !x.isFloat() {
+				say(w, t)
+			}
+		}
+	}
+	if mask&0x8 != 0 { // ConstOffset
+		if x, t, ok := next(); ok && !x.isInt() {
+			say("ConstOffset", t)
+		}
+	}
+	if mask&0x10 != 0 { // Offset
+		if x, t, ok := next(); ok && !x.isInt() {
+			say("Offset", t)
+		}
+	}
+	if mask&0x20 != 0 { // ConstOffsets
+		next()
+	}
+	if mask&0x40 != 0 { // Sample
+		if x, t, ok := next(); ok && (!x.isInt() || x.n != 1) {
+			say("Sample", t)
+		}
+	}
 }
 
 func (v *validator) scopeOperand(in *Inst, id uint32, rule string) {
